@@ -122,7 +122,7 @@ theorem hkOwn_panicked (c : Ctx) (now : Int) : (hkOwn c now).panicked = c.panick
 
 /-- the first loop of `reconnect_to_peers` -/
 def rcDial (env : CryptoEnv) (o : Oracle) (c : Ctx) (now : Int) : Ctx :=
-  c.node.reconnect.foldl (fun c e => if e.next > now then c else connect env o c e.resolved) c
+  c.node.reconnect.foldl (fun c e => if Generated.reconnectNotDue e.next now then c else connect env o c e.resolved) c
 
 theorem rcDial_sched (env : CryptoEnv) (o : Oracle) (c : Ctx) (now : Int) : sched (rcDial env o c now).node = sched c.node := by
   unfold rcDial
@@ -306,11 +306,11 @@ theorem handleResult_message_peers (env : CryptoEnv) (o : Oracle) (c : Ctx) (now
 /-- the second loop of `reconnect_to_peers`: what happens to one entry (`peers` = the current peer list) -/
 def rcUpdate (peers : List (NAddr × Peer)) (now : Int) (e : Reconnect) : Reconnect :=
   let e1 := if e.resolved.any (fun a => (lookupA peers a).isSome) then { e with tries := 0, timeout := 1, next := now + 1 } else e
-  if e1.next > now then e1
+  if Generated.reconnectNotDue e1.next now then e1
   else
     let tries := e1.tries + 1
-    let (tries, timeout) := if tries > Generated.RECONNECT_TRIES then (0, e1.timeout * 2) else (tries, e1.timeout)
-    let timeout := if timeout > Generated.MAX_RECONNECT_INTERVAL then Generated.MAX_RECONNECT_INTERVAL else timeout
+    let (tries, timeout) := if Generated.backoffDoubles tries then (0, e1.timeout * 2) else (tries, e1.timeout)
+    let timeout := if Generated.backoffCapped timeout then Generated.MAX_RECONNECT_INTERVAL else timeout
     { e1 with tries, timeout, next := now + timeout }
 
 theorem rcDial_peers (env : CryptoEnv) (o : Oracle) (c : Ctx) (now : Int) : (rcDial env o c now).node.peers = c.node.peers := by
@@ -341,20 +341,21 @@ theorem rcUpdate_timeout (peers : List (NAddr × Peer)) (now : Int) (e : Reconne
     (rcUpdate peers now e).timeout ≤ max e.timeout Generated.MAX_RECONNECT_INTERVAL := by
   have h1 : 1 ≤ Generated.MAX_RECONNECT_INTERVAL := by decide
   unfold rcUpdate
-  generalize Generated.MAX_RECONNECT_INTERVAL = M at h1 ⊢
-  have clamp : ∀ t : Nat, (if t > M then M else t) ≤ M := by intro t; split <;> omega
+  have clamp : ∀ t : Nat, (if Generated.backoffCapped t = true then Generated.MAX_RECONNECT_INTERVAL else t) ≤ Generated.MAX_RECONNECT_INTERVAL := by
+    intro t; simp only [Generated.backoffCapped, decide_eq_true_eq]; split <;> omega
+  generalize Generated.MAX_RECONNECT_INTERVAL = M at h1 clamp ⊢
   simp only []
   split
   · split
     · show 1 ≤ max e.timeout M; omega
     · dsimp only
-      generalize (if 0 + 1 > Generated.RECONNECT_TRIES then ((0 : Nat), 1 * 2) else (0 + 1, 1)).snd = t
+      generalize (if Generated.backoffDoubles (0 + 1) = true then ((0 : Nat), 1 * 2) else (0 + 1, 1)).snd = t
       have := clamp t
       omega
   · split
     · omega
     · dsimp only
-      generalize (if e.tries + 1 > Generated.RECONNECT_TRIES then ((0 : Nat), e.timeout * 2) else (e.tries + 1, e.timeout)).snd = t
+      generalize (if Generated.backoffDoubles (e.tries + 1) = true then ((0 : Nat), e.timeout * 2) else (e.tries + 1, e.timeout)).snd = t
       have := clamp t
       omega
 
@@ -454,7 +455,7 @@ theorem connect_fresh (env : CryptoEnv) (o : Oracle) (c : Ctx) (addrs : List NAd
 /-! the first loop of `reconnect_to_peers` -/
 
 def dialStep (env : CryptoEnv) (o : Oracle) (now : Int) (c : Ctx) (e : Reconnect) : Ctx :=
-  if e.next > now then c else connect env o c e.resolved
+  if Generated.reconnectNotDue e.next now then c else connect env o c e.resolved
 
 theorem rcDial_eq (env : CryptoEnv) (o : Oracle) (c : Ctx) (now : Int) :
     rcDial env o c now = c.node.reconnect.foldl (dialStep env o now) c := rfl
@@ -533,12 +534,13 @@ theorem rcDial_dials (env : CryptoEnv) (o : Oracle) (c : Ctx) (now : Int) (pre p
     split
     · exact hc'
     · rename_i hnd
+      simp only [Generated.reconnectNotDue, decide_eq_true_eq] at hnd
       apply connect_pendSub env o _ c' _ hc'
       intro a' ha'
       exact Or.inr ⟨e', he', by omega, a', ha', rfl⟩
   -- the entry itself
   have hstep : dialStep env o now cp e = connect env o cp e.resolved := by
-    unfold dialStep; rw [if_neg (by omega)]
+    unfold dialStep; rw [if_neg (by simp only [Generated.reconnectNotDue, decide_eq_true_eq]; omega)]
   have hf : ∀ a ∈ e.resolved, cp.node.own.contains (mappedAddr a) = false ∧ lookupA cp.node.peers (mappedAddr a) = none ∧
       lookupA cp.node.pending (mappedAddr a) = none := by
     intro a ha
@@ -821,20 +823,21 @@ theorem rcUpdate_next (peers : List (NAddr × Peer)) (now : Int) (e : Reconnect)
     (rcUpdate peers now e).next ≤ max e.next (now + Generated.MAX_RECONNECT_INTERVAL) := by
   have h1 : 1 ≤ Generated.MAX_RECONNECT_INTERVAL := by decide
   unfold rcUpdate
-  generalize Generated.MAX_RECONNECT_INTERVAL = M at h1 ⊢
-  have clamp : ∀ t : Nat, (if t > M then M else t) ≤ M := by intro t; split <;> omega
+  have clamp : ∀ t : Nat, (if Generated.backoffCapped t = true then Generated.MAX_RECONNECT_INTERVAL else t) ≤ Generated.MAX_RECONNECT_INTERVAL := by
+    intro t; simp only [Generated.backoffCapped, decide_eq_true_eq]; split <;> omega
+  generalize Generated.MAX_RECONNECT_INTERVAL = M at h1 clamp ⊢
   simp only []
   split
   · split
     · show now + 1 ≤ max e.next (now + (M : Int)); omega
     · dsimp only
-      generalize (if 0 + 1 > Generated.RECONNECT_TRIES then ((0 : Nat), 1 * 2) else (0 + 1, 1)).snd = t
+      generalize (if Generated.backoffDoubles (0 + 1) = true then ((0 : Nat), 1 * 2) else (0 + 1, 1)).snd = t
       have := clamp t
       omega
   · split
     · omega
     · dsimp only
-      generalize (if e.tries + 1 > Generated.RECONNECT_TRIES then ((0 : Nat), e.timeout * 2) else (e.tries + 1, e.timeout)).snd = t
+      generalize (if Generated.backoffDoubles (e.tries + 1) = true then ((0 : Nat), e.timeout * 2) else (e.tries + 1, e.timeout)).snd = t
       have := clamp t
       omega
 
@@ -1157,7 +1160,7 @@ def deadStep (env : CryptoEnv) (o : Oracle) (now : Int) (c : Ctx) (a : NAddr) : 
   connectSock env o { c with node := { c.node with peers := eraseA c.node.peers a, table := c.node.table.removeClaims now (addrId a) } } a
 
 theorem hkDead_eq (env : CryptoEnv) (o : Oracle) (n : Node) (now : Int) :
-    hkDead env o n now = ((n.peers.filter (fun (_, p) => p.timeout < now)).map (·.1)).foldl (deadStep env o now) { node := n } := rfl
+    hkDead env o n now = ((n.peers.filter (fun (_, p) => Generated.peerExpired p.timeout now)).map (·.1)).foldl (deadStep env o now) { node := n } := rfl
 
 theorem deadStep_grows (env : CryptoEnv) (o : Oracle) (now : Int) (c : Ctx) (a : NAddr) : Grows c (deadStep env o now c a) :=
   Grows.of_ext (connectSock_ext env o _ a)
@@ -1176,7 +1179,7 @@ theorem hkDead_redials (env : CryptoEnv) (o : Oracle) (n : Node) (now : Int) (a 
     (hown : n.own.contains a = false) (hpend : lookupA n.pending a = none) :
     HsTo a (hkDead env o n now).outs := by
   rw [hkDead_eq]
-  generalize hdead : (n.peers.filter (fun (_, p) => p.timeout < now)).map (·.1) = dead
+  generalize hdead : (n.peers.filter (fun (_, p) => Generated.peerExpired p.timeout now)).map (·.1) = dead
   have hsub : dead.Sublist (n.peers.map (·.1)) := by rw [← hdead]; exact List.Sublist.map _ List.filter_sublist
   have hdnd : dead.Nodup := List.Nodup.sublist hsub hnd
   have hmem : a ∈ dead := by
